@@ -5,6 +5,7 @@
 From Coq Require Import ZArith List Reals.
 From Verif Require Import lib.Arith lib.PyRange lib.Period model.Series gen.TemporalGen model.Temporal
      proofs.SeriesProofs proofs.TemporalProofs.
+From Verif Require Import lib.Calendar gen.DatesGen model.TemporalKw proofs.TemporalKwProofs proofs.TemporalKwExamples.
 Import ListNotations.
 Notation RA := RArith.
 
@@ -79,3 +80,100 @@ Example C13_hypotheses_satisfiable :
   exists c r, change RA KRoc (ByInt (-2)) x = Ok c /\
               temporal_cumulation RA CumRoc (ByInt (-2)) (InitSeries RA x) (SpanFromTo 8002 8004 1) c = Ok r.
 Proof. exact hypotheses_satisfiable. Qed.
+
+(* ---------------------------------------------------------------------------------------------------------
+   Keyword shifts (yoy / soy / eopy / tty) for EVERY frequency class, DAILY included (model/TemporalKw.v).
+   kw_ref fr by t = Period.shift(by) of the period with serial t: for fr = 365 it is built from the fragments
+   gen_daily_create_soy / _eopy / _tty and gen_shift_arm_yoy that translator/dates.py regenerates from dates.py
+   (over lib/Calendar.v); None = the code raises, Some None = create_tty returned None (no reference).
+   --------------------------------------------------------------------------------------------------------- *)
+
+(* 4. the documented reference day of a daily period t (proleptic Gregorian ordinal, 1 <= t <= 3652059):
+      soy = 1 January of the year of t; eopy = 31 December of the previous year (the day before that 1 January; the
+      code raises in year 1); tty = the previous day except on 1 January; yoy = 365 days back as coded *)
+Theorem C13_daily_reference_days : forall t, in_cal t ->
+  let y := year_of_ord t in
+  let jan1 := ord_of_ymd y 1 1 in
+  ymd_of_ord jan1 = (y, 1, 1)%Z /\ (jan1 <= t)%Z /\
+  kw_ref 365 Soy t = Some (Some jan1) /\
+  ((2 <= y)%Z -> kw_ref 365 Eopy t = Some (Some (jan1 - 1)%Z) /\ ymd_of_ord (jan1 - 1) = (y - 1, 12, 31)%Z) /\
+  (y = 1%Z -> kw_ref 365 Eopy t = None) /\
+  kw_ref 365 Tty t = Some (if (t =? jan1)%Z then None else Some (t - 1)%Z) /\
+  kw_ref 365 Yoy t = Some (Some (t - 365)%Z).
+Proof. exact daily_reference_days. Qed.
+Print Assumptions C13_daily_reference_days.
+
+(* non-vacuity: 739251 = 2024-12-31 (leap year), 738886 = 2024-01-01; ordinal 300 lies in year 1 *)
+Example C13_daily_reference_days_example :
+  in_cal 739251 /\ ymd_of_ord 739251 = (2024, 12, 31)%Z /\ ymd_of_ord 738886 = (2024, 1, 1)%Z /\
+  kw_ref 365 Soy 739251 = Some (Some 738886%Z) /\ kw_ref 365 Eopy 739251 = Some (Some 738885%Z) /\
+  kw_ref 365 Tty 739251 = Some (Some 739250%Z) /\ kw_ref 365 Tty 738886 = Some None /\
+  kw_ref 365 Yoy 739251 = Some (Some 738886%Z) /\ kw_ref 365 Eopy 300 = None.
+Proof. exact daily_reference_days_example. Qed.
+
+(* the regular classes keep the references of lib/Period.v (tied to dates.py by C09) *)
+Theorem C13_regular_reference : forall fr by_ t, fr <> 365%Z -> kw_ref fr by_ t = Some (period_shift fr by_ t).
+Proof. exact regular_kw_ref. Qed.
+Print Assumptions C13_regular_reference.
+
+(* 5. the change with a keyword (or integer) shift is the documented formula against that reference, period by period,
+      for every frequency class; where create_tty gives no reference the shifted copy holds the neutral value *)
+Theorem C13_kw_change_formula : forall k by_ (x c : series RA) st,
+  let en := (st + Z.of_nat (length (s_data x)) - 1)%Z in
+  WF RA x -> s_start x = Some st -> change_fixed_shift k = None ->
+  change_kw RA k by_ x = Ok c ->
+  forall t, (st <= t <= en)%Z ->
+    match kw_ref (s_freq x) by_ t with
+    | Some (Some r) => row_at RA c t = zip_bcast RA (change_fun RA k (factor_of RA x)) (row_at RA x t) (row_at RA x r)
+    | Some None => row_at RA c t = zip_bcast RA (change_fun RA k (factor_of RA x)) (row_at RA x t)
+                                     (bcast_row RA (s_nv x) [nval RA (change_neutral k)])
+    | None => False
+    end.
+Proof. exact kw_change_formula. Qed.
+Print Assumptions C13_kw_change_formula.
+
+(* 6. documented start-of-year value with tty ("the value of the resulting series is unchanged"): diff and roc,
+      every frequency class *)
+Theorem C13_tty_start_of_year_unchanged : forall k (x c : series RA) st,
+  let en := (st + Z.of_nat (length (s_data x)) - 1)%Z in
+  k = KDiff \/ k = KRoc ->
+  WF RA x -> s_start x = Some st ->
+  change_kw RA k Tty x = Ok c ->
+  forall t, (st <= t <= en)%Z -> kw_ref (s_freq x) Tty t = Some None -> row_at RA c t = row_at RA x t.
+Proof. exact tty_start_of_year_unchanged. Qed.
+Print Assumptions C13_tty_start_of_year_unchanged.
+
+(* the start-of-year periods are the first segment of a regular year and 1 January of a daily year *)
+Theorem C13_tty_start_of_year_periods :
+  (forall fr t, fr <> 365%Z -> (t mod fr = 0)%Z -> kw_ref fr Tty t = Some None) /\
+  (forall t, in_cal t -> t = ord_of_ymd (year_of_ord t) 1 1 -> kw_ref 365 Tty t = Some None).
+Proof. exact (conj tty_none_regular tty_none_daily). Qed.
+Print Assumptions C13_tty_start_of_year_periods.
+
+(* 7. forward cumulation with the same keyword shift and the original series as initial condition reproduces the
+      series on the span a..b -- any frequency class, any number of years (leap or common) inside the span *)
+Theorem C13_kw_cum_forward_inverts : forall ck by_ (x c r : series RA) st a b,
+  let en := (st + Z.of_nat (length (s_data x)) - 1)%Z in
+  let fr := s_freq x in
+  WF RA x -> s_start x = Some st -> cells_in RA (dom_of ck) x st en ->
+  (st <= a <= b)%Z -> (b <= en)%Z ->
+  (forall t q, (a <= t <= b)%Z -> kw_ref fr by_ t = Some (Some q) -> (st <= q <= t)%Z) ->
+  ((exists q, kw_ref fr by_ a = Some (Some q)) \/
+   (kw_ref fr by_ a = Some None /\ (a = b \/ kw_ref fr by_ (a + 1) = Some (Some a)))) ->
+  change_kw RA (chg_of ck) by_ x = Ok c ->
+  s_freq c = fr ->
+  temporal_cumulation_kw RA ck by_ (InitSeries RA x) (SpanFromTo a b 1) c = Ok r ->
+  forall t, (a <= t <= b)%Z -> row_at RA r t = row_at RA x t.
+Proof. exact kw_cum_forward_inverts. Qed.
+Print Assumptions C13_kw_cum_forward_inverts.
+
+(* non-vacuity of 5-7: a daily series 2023-12-30 .. 2024-01-03, roc / cum_roc with "tty" from 1 January on *)
+Example C13_kw_hypotheses_satisfiable :
+  let x := ex_daily in
+  WF RA x /\ s_start x = Some 738884%Z /\ cells_in RA (dom_of CumRoc) x 738884 (738884 + 5 - 1) /\
+  (738884 <= 738886 <= 738888)%Z /\ (738888 <= 738884 + 5 - 1)%Z /\
+  (forall t q, (738886 <= t <= 738888)%Z -> kw_ref 365 Tty t = Some (Some q) -> (738884 <= q <= t)%Z) /\
+  (kw_ref 365 Tty 738886 = Some None /\ kw_ref 365 Tty (738886 + 1) = Some (Some 738886%Z)) /\
+  exists c r, change_kw RA KRoc Tty x = Ok c /\ s_freq c = 365%Z /\
+              temporal_cumulation_kw RA CumRoc Tty (InitSeries RA x) (SpanFromTo 738886 738888 1) c = Ok r.
+Proof. exact kw_hypotheses_satisfiable. Qed.
